@@ -173,7 +173,8 @@ def snapshot(x, depth=0):
     if isinstance(x, np.ndarray):
         if x.dtype == object:
             return ('ndo', x.shape, repr(x.tolist()))
-        return ('nd', x.shape, str(x.dtype), x.tobytes())
+        # (the writeable flag is part of what the caller holds: an array the library has frozen can no longer be edited by its owner)
+        return ('nd', x.shape, str(x.dtype), x.tobytes(), bool(x.flags.writeable))
     if isinstance(x, (list, tuple)):
         return (type(x).__name__, tuple(snapshot(v, depth + 1) for v in x))
     if isinstance(x, dict):
